@@ -181,6 +181,7 @@ pub fn generate(tier: &str, seed: u64) -> Vec<String> {
         out.push(format!("c16 op set_ccm v={}", rng.pick(&[1u64, 4])));
         for _ in 0..rng.range(2, 9) { out.push(format!("c16 {}", gen_write_op(&mut rng, &cfg))); if rng.chance(1, 2) { out.push(format!("c16 {}", gen_read_op(&mut rng, &cfg))); } }
         gen_full_reads(&mut rng, &cfg, &mut out, "c16");
+        { let gs = cfg.grid_shape(); out.push(format!("c16 op enc_chunks box={}+{}", nl(&vec![0; gs.len()]), nl(&gs))); }
         out.push("c16 op set_ccm v=4".into());
     }
     // (b) concurrent clients on chunk-disjoint bands
